@@ -256,12 +256,13 @@ def check_C07(ctx, rep):
         if l2 == ("ERR",):
             return is_err(l1)
         return l1 == l2
-    t, body = get_tree(rep, f, "R17", "<TwoFloat as core::convert::TryFrom<(f64, f64)>>::try_from")
+    t, body = get_tree(rep, f, "R17", "<TwoFloat as core::convert::TryFrom<(f64, f64)>>::try_from", inline_extra=("<TwoFloat as core::convert::TryFrom<[f64; 2]>>::try_from",))
     if t is not None:
         x, y = mk("field", a, 0), mk("field", a, 1)
         ref = IF(NO(x, y), RET(OK(tf(x, y))), ("ERR",))
         expect_equiv(rep, "R17", "TryFrom<(f64,f64)>", "tryfrom-tuple", t, ref, body, "no_overlap(v.0, v.1) ? Ok{hi: v.0, lo: v.1} (words untouched) : Err", leaf_eq=leq)
-    t, body = get_tree(rep, f, "R17", "<TwoFloat as core::convert::TryFrom<[f64; 2]>>::try_from")
+    # (the array form may delegate to the tuple form, or the reverse: each is read with the other in place)
+    t, body = get_tree(rep, f, "R17", "<TwoFloat as core::convert::TryFrom<[f64; 2]>>::try_from", inline_extra=("<TwoFloat as core::convert::TryFrom<(f64, f64)>>::try_from",))
     if t is not None:
         x, y = mk("index", a, mk("const", "usize", 0)), mk("index", a, mk("const", "usize", 1))
         ref = IF(NO(x, y), RET(OK(tf(x, y))), ("ERR",))
